@@ -180,6 +180,12 @@ Theorem C15_stdcond_positive_decreasing :
 Proof. intros z l it it' nlive. split; [apply stdcond_pos|apply stdcond_decreasing]. Qed.
 Print Assumptions C15_stdcond_positive_decreasing.
 
+(* ... and it depends on the state only through logLmax - it / nlive - logZ: ln(1 + Lmax X_it / Z) *)
+Theorem C15_stdcond_closed_form : forall (z l : R) (it nlive : Z),
+  stdcond_R z l it nlive = ln (1 + exp (l - IZR it / IZR nlive - z)).
+Proof. exact stdcond_closed. Qed.
+Print Assumptions C15_stdcond_closed_form.
+
 (* ---- non-vacuity --------------------------------------------------------------------------------- *)
 Example C15_hand_skeletons_ok : P_std std_sk /\ P_ins ins_sk.
 Proof. split; [exact std_sk_ok|exact ins_sk_ok]. Qed.
